@@ -567,6 +567,14 @@ pub fn run(prop: &str, tier: &str) -> i32 {
     let t0 = std::time::Instant::now();
     let a = stage(&format!("token strings up to {} tokens after $", ntok), token_space(&l, ntok), t0);
     total = total.merge(a);
+    if prop == "C08" {
+        let t0 = std::time::Instant::now();
+        let a = stage("integer cube (index / slice / singular index, parsed and programmatic)", crate::checks::robust::cube(&run), t0);
+        total = total.merge(a);
+        let t0 = std::time::Instant::now();
+        let a = stage("depth ladder (isolated subprocesses)", crate::checks::robust::ladder(&run), t0);
+        total = total.merge(a);
+    }
     let rule = match prop {
         "C06" => "every string of five exhaustively enumerated spaces (token strings, character strings, generated ABNF sentences with blank-space variants, one-position families, single-token edits) is classified by the RFC recogniser and parsed by the real parser; a C06 case is a string the recogniser calls valid; distinct_nontrivial = distinct valid strings (hash set)",
         "C07" => "same enumeration; a C07 case is a string the recogniser calls invalid; distinct_nontrivial = distinct invalid strings from the near-miss spaces (families, blank variants, single-token edits of valid sentences)",
